@@ -218,6 +218,16 @@ func runCodec(seed uint64, n int, tier string, out string, replay string) {
 		if err != nil {
 			panic(err)
 		}
+		// the record handed out for one entry must not change when other entries are encoded afterwards
+		// (a store may still be holding it): encode two smaller entries, then compare
+		snapshot := append([]byte{}, data...)
+		for _, other := range []*cache.HTTPResponse{nil, {StatusCode: 204, Header: http.Header{"X-Other": []string{"o"}}, RawBody: []byte("other")}} {
+			_, _ = cache.VerifNewEntry(3, other, 1, 2).Bytes()
+		}
+		if !bytes.Equal(snapshot, data) {
+			sum.ImplViolations = append(sum.ImplViolations, map[string]interface{}{"property": "C09+C08", "kind": "record-changed-by-later-encode", "record_len": len(data), "record_hex": fmt.Sprintf("%x", snapshot[:min(len(snapshot), 48)])})
+			data = snapshot
+		}
 		or := &codecOracles{seenH: map[string]bool{}, seenR: map[string]bool{}}
 		var hdrEnc []string
 		if resp != nil {
